@@ -90,8 +90,8 @@ def call_qual(fv, q, node, st, spec):
     if c is not None:
         return apply_contract(fv, c, node, st, spec, None)
     # class constructor?
-    cname = q.split('.')[-1]
-    if cname in fv.E.fe.classes or fv.E.find_contract(q + '.__init__'):
+    cname = fv.E.fe.resolve(q, None, strict=False) or q.split('.')[-1]
+    if cname in fv.E.fe.classes or fv.E.find_contract(q + '.__init__') or cname in fv.E.sc.classdecl:
         return construct(fv, q, cname, node, st, spec)
     fv.err(node, 'no contract for callee %s' % q)
 
@@ -105,11 +105,11 @@ def call_user(fv, q, node, st, spec, closure=False):
 
 def call_super(fv, node, st, spec):
     meth = node.func.attr
-    for b in fv.E.fe.mro(fv.cls.name)[1:]:
+    for b in fv.E.fe.mro(fv.cls.key)[1:]:
         ci = fv.E.fe.classes[b]
         if meth in ci.methods:
             q = ci.module + '.' + ci.name + '.' + meth
-            c = find_method_contract(fv, ci.name, meth)
+            c = find_method_contract(fv, ci.key, meth)
             if c is None:
                 fv.err(node, 'no contract for super().%s (%s)' % (meth, q))
             recv = st.env['self']
@@ -126,7 +126,7 @@ def find_method_contract(fv, cname, meth, exact=False):
         names.extend(fe.mro(c) if c in fe.classes else fv._decl_mro(c))
     for c in names:
         ci = fe.classes.get(c)
-        quals = [(ci.module + '.' + c) if ci else c, c]
+        quals = [(ci.module + '.' + ci.name) if ci else c, c]
         for qn in quals:
             k = fv.E.find_contract(qn + '.' + meth)
             if k is not None and (k.kind in ('family', 'external') or '|' not in cname):
@@ -145,7 +145,7 @@ def receiver_family_contract(fv, cname, meth):
         names.extend(fe.mro(c) if c in fe.classes else fv._decl_mro(c))
     for c in names:
         ci = fe.classes.get(c)
-        for qn in ([(ci.module + '.' + c)] if ci else []) + [c]:
+        for qn in ([(ci.module + '.' + ci.name)] if ci else []) + [c]:
             k = fv.E.find_contract(qn + '.' + meth)
             if k is not None and k.kind in ('family', 'external'):
                 return k
@@ -504,6 +504,29 @@ def sf_set_add(fv, node, st):
     return SV(P.sadd(s.term, box(coerce(x, ety) if not ety.is_any else x)), s.ty)
 
 
+def sf_smem(fv, node, st):
+    """smem(s, x): x is an element of the set s (identity of the stored value, not modulo __eq__)"""
+    s, x = [fv.ev(a, st, True) for a in node.args]
+    return SV(P.smem(s.term, box(x)), BOOL)
+
+
+def sf_mem(fv, node, st):
+    """mem(seq, x): x occurs in the sequence (identity of the stored value, not modulo __eq__)"""
+    s, x = [fv.ev(a, st, True) for a in node.args]
+    return SV(P.mem(s.term, box(x)), BOOL)
+
+
+def sf_same_class(fv, node, st):
+    a, b = [fv.ev(x, st, True) for x in node.args]
+    return SV(P.cls(box(a)) == P.cls(box(b)), BOOL)
+
+
+def sf_class_is(fv, node, st):
+    """class_is(x, "Name"): the exact class of x"""
+    x = fv.ev(node.args[0], st, True)
+    return SV(P.cls(box(x)) == fv.E.class_id(fv.class_key(node.args[1].value)), BOOL)
+
+
 def sf_set_of(fv, node, st):
     s = fv.ev(node.args[0], st, True)
     return SV(P.set_of_seq(s.term), T.Set(s.ty.elem()))
@@ -593,7 +616,7 @@ SPEC_FORMS = {
     'forall': sf_forall, 'exists': sf_exists, 'implies': sf_implies, 'iff': sf_iff, 'old': sf_old,
     'keys': sf_keys, 'seq_eq': sf_seq_eq, 'set_eq': sf_set_eq, 'map_eq': sf_map_eq, 'map_eqv': sf_map_eqv, 'same': sf_same,
     'nodup': sf_nodup, 'take': sf_take, 'drop': sf_drop, 'seq_remove': sf_seq_remove, 'index_of': sf_index_of, 'restrict': sf_restrict,
-    'mupdate': sf_mupdate, 'put': sf_put, 'rem': sf_rem, 'snoc': sf_snoc, 'set_add': sf_set_add, 'set_of': sf_set_of, 'elems': sf_elems,
+    'mupdate': sf_mupdate, 'put': sf_put, 'rem': sf_rem, 'snoc': sf_snoc, 'smem': sf_smem, 'mem': sf_mem, 'class_is': sf_class_is, 'same_class': sf_same_class, 'set_add': sf_set_add, 'set_of': sf_set_of, 'elems': sf_elems,
     'empty_map': sf_empty_map, 'empty_seq': sf_empty_seq, 'empty_set': sf_empty_set, 'typed': sf_typed,
     'cast': sf_cast, 'truthy': sf_truthy, 'fresh': sf_fresh, 'newobj': sf_newobj, 'allocated': sf_allocated, 'allocated_now': sf_allocated_now,
     'unchanged': sf_unchanged, 'ite': sf_ite,
@@ -690,14 +713,19 @@ def bi_isinstance(fv, node, st, spec):
     cn = node.args[1]
     names = []
     for e in (cn.elts if isinstance(cn, ast.Tuple) else [cn]):
-        names.append(e.attr if isinstance(e, ast.Attribute) else e.id)
+        if isinstance(e, ast.Attribute) and isinstance(e.value, ast.Name):
+            alias = e.value.id
+            mod = fv.module.imports.get(alias) if (fv.module is not None and alias in fv.module.imports) else None
+            names.append((mod.split('.')[-1] if mod else alias) + '.' + e.attr)
+        else:
+            names.append(e.id)
     vt = v.ty.strip_opt()
     if vt.kind in ('obj', 'any'):
         r = z3.And(P.tag(v.term) == P.TAG_OBJ, fv.isinstance_term(v.term, names))
         return SV(r, BOOL)
     if vt.kind == 'abs':
         # values of an abstract sort: class membership is an uninterpreted predicate per class
-        rs = [z3.Function('isinst!' + n, P.V, z3.BoolSort())(v.term) for n in names]
+        rs = [z3.Function('isinst!' + n.split('.')[-1], P.V, z3.BoolSort())(v.term) for n in names]
         r = z3.And(v.term != P.none, z3.Or(*rs))
         return SV(r, BOOL)
     return SV(z3.BoolVal(False), BOOL)
@@ -754,7 +782,7 @@ def bi_hasattr(fv, node, st, spec):
     attr = node.args[1].value
     # has a method/field of that name according to the class table
     fe = fv.E.fe
-    names = [n for n, ci in fe.classes.items() if '.' not in n and
+    names = [n for n, ci in fe.classes.items() if
              (fe.resolve_method(n, attr)[1] is not None or attr in fv.E.field_types and
               any(k in fv.E.field_types[attr] for k in fe.mro(n)))]
     r = z3.And(P.tag(v.term) == P.TAG_OBJ,
@@ -768,6 +796,8 @@ def bi_getattr(fv, node, st, spec):
 
 def bi_type(fv, node, st, spec):
     v = fv.ev(node.args[0], st, spec)
+    if v.ty.strip_opt().is_obj:
+        return SV(P.I(P.cls(box(v))), T.Abs('PyType'))     # class objects are represented by their class id
     f = z3.Function('type_of', P.V, P.V)
     return SV(f(box(v)), T.Abs('PyType'))
 
